@@ -29,6 +29,10 @@ EMBED = {
     "_wheres": {"subquery": True}, "_prewheres": {"subquery": True}, "_havings": {"subquery": True},
     "_on_conflict_wheres": {"subquery": True}, "_on_conflict_do_update_wheres": {"subquery": True},
     "_selects": {"subquery": True}, "_values": {"subquery": True},
+    # value expressions of the remaining clauses: a scalar subquery there (SET c=(SELECT ..), ORDER BY (SELECT ..)) is an
+    # operand like in WHERE; the assignment targets ([0] of an update pair) are column names and cannot be one
+    "_updates[][1]": {"subquery": True}, "_on_conflict_do_updates[][1]": {"subquery": True},
+    "_groupbys": {"subquery": True}, "_orderbys": {"subquery": True},
 }
 TERM_EMBED = {("JoinOn", "criterion"): {"subquery": True}, ("Join", "item"): {"subquery": True, "with_alias": True},
               ("ContainsCriterion", "container"): {"subquery": True}}
@@ -46,7 +50,7 @@ def check(program: Program, run: Run) -> None:
     run.rule("R1b every convention field (quote characters, AS keyword, alias policies) has one value across the clause slots of a statement")
     run.rule("R4 (inherited from C08/R1c) a statement's own dialect policy does not depend on the context it is entered with (top-level set operation vs stand-alone)")
     run.rule("R2 incoming subquery/with_alias consumed only by the tail wrap; only alias suffix / ON CONFLICT outside the parentheses")
-    run.rule("R3 embedding sites: FROM/JOIN items subquery+alias; CTE body neither; criteria, SET values, select list and IN container subquery=True")
+    run.rule("R3 embedding sites: FROM/JOIN items subquery+alias; CTE body neither; criteria, select list, INSERT values, SET / DO UPDATE SET values, GROUP BY and ORDER BY keys and IN container subquery=True")
     sites = render_sites(program)
     stmt_classes = list(BUILDER_CLASSES) + ["_SetOperation"]
     kinds = kind_states(program)
@@ -174,7 +178,9 @@ def check(program: Program, run: Run) -> None:
         fcls = s["func"].rsplit(".", 1)[0]
         ra = root_attr(s["recv"])
         req = None
-        if fcls in stmt_classes and ra in EMBED:
+        if fcls in stmt_classes and s["recv"] in EMBED:
+            req = EMBED[s["recv"]]
+        elif fcls in stmt_classes and ra in EMBED:
             if ra == "_selects" and ("_group_sql" in s["func"] or any("_groupbys" in show(x) for x in s["conds"])):
                 continue      # a select item written in GROUP BY position (picked by a GROUP BY key), not the select list
             if ra == "_with" and ".terms" in s["recv"]:
@@ -197,7 +203,7 @@ def check(program: Program, run: Run) -> None:
                 run.finding(f"C10/embed-flag:{s['func']}:{ra}:{flag}", f"{s['func']} renders `{s['recv']}` with {flag}={show(v)[:40]} (position needs {want}): "
                             + ("a subquery operand there is not parenthesised" if flag == "subquery" and want else "the embedded item is wrapped/aliased wrongly"),
                             where=where, rule="R3")
-    for need in ("_from", "_with", "_wheres", "_havings", "_selects", "container", "criterion", "item"):
+    for need in ("_from", "_with", "_wheres", "_havings", "_selects", "_updates", "_groupbys", "_orderbys", "container", "criterion", "item"):
         if need not in found:
             raise AnalysisError(f"anchor vanished: no embedding site over `{need}` found")
 
